@@ -75,6 +75,10 @@ def draw_scenario(seed, i, kind=None, real_writers=False):
         p["tree"] = _tree(rng, rng.randint(1, 12 if not big else 5), 3000 if not big else 120000)
         p["prev_tree"] = _tree(rng, rng.randint(1, 4), 2000)
         p["status_file"] = kind == "zipbuilder" and rng.random() < 0.7
+        p["keep_tmpfiles"] = rng.random() < 0.4
+        many = rng.random() < 0.08
+        if many and real_writers:  # thorough tier only: several hundred positions
+            p["tree"] = _tree(rng, rng.randint(50, 70), 260)  # many small members
     elif kind == "download":
         n = rng.randint(0, 6)
         p["chunks"] = [rng.choice([1, 100, 4096, 16384, 16384, 70000]) for _ in range(n)]
@@ -95,6 +99,8 @@ def draw_scenario(seed, i, kind=None, real_writers=False):
         p["bodies"] = [[rng.choice([100, 8192, 16384, 16384, 20000]) for _ in range(rng.randint(1, 5))] for _ in urls]
         p["max_connections"] = rng.choice([1, 2, 3, 10])
         p["prev_size"] = rng.randrange(1, 5000)
+        # a slow or stalled server: some chunk arrives only after this many (virtual) seconds
+        p["stalls"] = [[rng.choice([0, 0, 0, 0, 30, 400, 5000]) for _ in sizes] for sizes in p["bodies"]]
     elif kind == "render_real":
         p["writer"] = rng.choice(["rl", "rl", "odf"])
         p["articles"] = rng.randint(1, 2)
@@ -216,7 +222,8 @@ class Scenario:
     def produce_make_zip(self, tracer):
         from mwlib.apps import buildzip
         buildzip.make_nuwiki = self._stub_make_nuwiki()
-        buildzip.make_zip(output=self.published["zip"], wiki_options={}, metabook=None, status=None)
+        buildzip.make_zip(output=self.published["zip"], wiki_options={"keep_tmpfiles": bool(self.p.get("keep_tmpfiles"))},
+                          metabook=None, status=None)
 
     def prepare_zipbuilder(self):
         self._prepare_zip()
@@ -237,7 +244,7 @@ class Scenario:
         Env.metabook.append_article("A")
         buildzip.make_wiki_env_from_options = lambda metabook, wiki_options: Env
         cfg = buildzip.BuildConfig(
-            output=self.published["zip"], posturl=None, getposturl=0, keep_tmpfiles=False,
+            output=self.published["zip"], posturl=None, getposturl=0, keep_tmpfiles=bool(self.p.get("keep_tmpfiles")),
             status_file=self.published.get("status"), config=":en", imagesize=800, metabook=Env.metabook,
             collectionpage=None, noimages=False, logfile=None, username=None, password=None, domain=None,
             title=None, subtitle=None, editor=None, script_extension=".php")
@@ -318,6 +325,7 @@ class Scenario:
         from mwlib.network import fetch
         p = self.p
         bodies = {url: (self.url_bodies[i], p["bodies"][i]) for i, url in enumerate(p["urls"])}
+        stalls = {url: p.get("stalls", [[0] * len(s) for s in p["bodies"]])[i] for i, url in enumerate(p["urls"])}
 
         class Resp:
             status_code = 200
@@ -331,8 +339,8 @@ class Scenario:
             def iter_bytes(self, chunk_size=None):
                 body, sizes = bodies[self.url]
                 off = 0
-                for n in sizes:
-                    gevent.sleep(0)  # the next chunk arrives later: other downloads run
+                for n, stall in zip(sizes, stalls[self.url]):
+                    gevent.sleep(stall)  # the next chunk arrives later (virtual time): other downloads run
                     yield body[off:off + n]
                     off += n
 
@@ -360,9 +368,41 @@ class Scenario:
         f.fsout = fs
         f.image_download_pool = gevent.pool.Pool(p["max_connections"])
         f.pool = gevent.pool.Pool()
-        for u, title in p["downloads"]:
-            f._download_image(p["urls"][u], title)
-        f.pool.join()
+        # virtual time: gevent's own timers (sleep, Timeout, wait(timeout)) fire when the
+        # discrete-event clock below reaches them; nothing waits for the real clock
+        import heapq
+        from . import vtimer
+
+        class Clock:
+            now = 0.0
+            seq = 0
+            heap = []
+
+            def schedule_timer(self, after, fire):
+                self.seq += 1
+                heapq.heappush(self.heap, (self.now + after, self.seq, fire))
+
+            def count_timer_fired(self):
+                pass
+
+        clock = Clock()
+        vtimer.install(clock)
+
+        def work():
+            for u, title in p["downloads"]:
+                f._download_image(p["urls"][u], title)
+            f.pool.join()
+
+        g = gevent.spawn(work)
+        while True:
+            gevent.idle()
+            if g.dead or not clock.heap:
+                break
+            t, _, fire = heapq.heappop(clock.heap)
+            clock.now = max(clock.now, t)
+            fire()
+        if not g.dead:
+            raise RuntimeError("downloads neither finished nor wait for anything (deadlock)")
 
     # -- render ----------------------------------------------------------------------
     def prepare_render(self):
@@ -533,10 +573,11 @@ class Scenario:
                     bad = zf.testzip()
                     if bad is not None:
                         return ("garbage", f"zip member {bad} fails its CRC")
-                    names = sorted(zf.namelist())
-                    if names != sorted(self.contents):
-                        return ("garbage", f"zip has {len(names)} members, the source tree has {len(self.contents)}")
-                    for n in names:
+                    names = set(zf.namelist())
+                    missing = sorted(set(self.contents) - names)
+                    if missing:
+                        return ("garbage", f"zip lacks {len(missing)} of the {len(self.contents)} source files, e.g. {missing[0]}")
+                    for n in sorted(self.contents):  # extra members (a manifest, ...) are the producer's business
                         if zf.read(n) != self.contents[n]:
                             return ("garbage", f"zip member {n} differs from the source file")
                 return ("new",)
@@ -589,6 +630,8 @@ def applicable_kinds(op):
     kinds = ["crash", "enospc"]
     if name in ("write", "os.write", "sendfile", "copy_file_range"):
         kinds.append("eio_short")
+    if name in ("write", "os.write"):
+        kinds.append("disk_full")
     if name in ("close", "os.close", "rename", "replace"):
         kinds.append("eio_after")
     return kinds
